@@ -84,6 +84,16 @@ def applyOs (img : Image) : OsOp → Image
 
 def applyOsOps (img : Image) (ops : List OsOp) : Image := ops.foldl applyOs img
 
+/-- merge a write into the previous one when it continues it in the same file; applying the
+    merged list gives the same image (the driver uses this to keep list-based images cheap) -/
+def coalesce : List OsOp → List OsOp
+  | .write f off d :: .write f' off' d' :: rest =>
+    if f = f' ∧ off' = off + d.length then coalesce (.write f off (d ++ d') :: rest)
+    else .write f off d :: coalesce (.write f' off' d' :: rest)
+  | op :: rest => op :: coalesce rest
+  | [] => []
+termination_by ops => ops.length
+
 /-- image after the first `k` OS operations, plus the first `cut` bytes of operation `k` when it
     is a write (a process crash at that instant) -/
 def crashImage (img : Image) (ops : List OsOp) (k cut : Nat) : Image :=
